@@ -889,6 +889,18 @@ class Frame:
                 return Obj("Tree", False)
             return TOP
         if callee.qualname in g.declared:
+            # a declared closed form: its scalar parameters are lengths -- an argument of another degree is a definite misuse
+            ps = [p for p in callee.params if p not in ("self", "cls")] if not callee.is_staticmethod() else list(callee.params)
+            for i, p in enumerate(ps):
+                t = args[i] if i < len(args) else kw.get(p)
+                want = getattr(g, "arg_types", {}).get(p)
+                if t is None or want is None:
+                    continue
+                t = elem(t)
+                if kind(t) == "S" and kind(want) == "S" and t[1] != want[1]:
+                    self.note(c, Bad(f"argument `{p}` of {callee.name} is a quantity of degree {t[1]} where degree {want[1]} (a length) is expected"))
+                elif kind(t) in ("P", "V", "C", "E"):
+                    self.note(c, Bad(f"argument `{p}` of {callee.name} is pose dependent ({show(t)}) where a length is expected"))
             return g.declared[callee.qualname]
         self_t = None
         if isinstance(c.func, ast.Attribute):
